@@ -33,6 +33,15 @@ func isByteSliceErrSig(sig *types.Signature) bool {
 	return r.Len() == 2 && isByteSlice(r.At(0).Type()) && isErrorType(r.At(1).Type())
 }
 
+func isByteSliceBoolSig(sig *types.Signature) bool {
+	r := sig.Results()
+	if r.Len() != 2 || !isByteSlice(r.At(0).Type()) {
+		return false
+	}
+	b, ok := r.At(1).Type().Underlying().(*types.Basic)
+	return ok && b.Kind() == types.Bool
+}
+
 // errKnownNilOnSomeEntry: the error value is known nil at b, or on one of the edges entering b.
 func errKnownNilOnSomeEntry(v ssa.Value, b *ssa.BasicBlock) bool {
 	has := func(facts []Fact) bool {
@@ -68,7 +77,8 @@ func ruleC07SuccessCarriesData(c *Ctx) {
 	}
 	sortFuncs(names)
 	for _, f := range names {
-		if !isByteSliceErrSig(f.Signature) {
+		boolSig := isByteSliceBoolSig(f.Signature)
+		if !isByteSliceErrSig(f.Signature) && !boolSig {
 			continue
 		}
 		c.FuncsAnalysed[shortName(f)] = true
@@ -79,6 +89,14 @@ func ruleC07SuccessCarriesData(c *Ctx) {
 			data, errv := returnedValue(r, 0), returnedValue(r, 1)
 			construct := trimPkgDirs(shortName(f)) + "/return"
 			errConstNil := isNilConst(strip(errv))
+			if boolSig {
+				// (data, ok): success is the constant true; a computed flag is treated as a possible success
+				k, isC := constOf(strip(errv))
+				if isC && k.ExactString() == "false" {
+					continue
+				}
+				errConstNil = true
+			}
 			dv := resolve(data)
 			fabricated := ""
 			switch x := dv.(type) {
@@ -116,6 +134,27 @@ func ruleC07SuccessCarriesData(c *Ctx) {
 					for _, pr := range resultsOfType(call, isErrorType) {
 						if pr[0] != nil && (knownNil(pr[0], r.Block()) || errKnownNilOnSomeEntry(pr[0], r.Block())) {
 							okData = true
+						}
+					}
+					// a ([]byte, bool) step of the same package (itself checked by this rule): its flag known true
+					if g := staticCallee(call); g != nil && g.Blocks != nil && isByteSliceBoolSig(g.Signature) && funcs[g] {
+						for _, pr := range resultsOfType(call, func(t types.Type) bool {
+							b, isB := t.Underlying().(*types.Basic)
+							return isB && b.Kind() == types.Bool
+						}) {
+							if pr[0] == nil {
+								continue
+							}
+							if v, known := knownBool(pr[0], r.Block()); known && v {
+								okData = true
+							}
+							for _, p := range r.Block().Preds {
+								for _, fct := range edgeFacts(p, r.Block()) {
+									if fct.Sub == nil && strip(fct.V) == strip(pr[0]) && fct.True {
+										okData = true
+									}
+								}
+							}
 						}
 					}
 				}
